@@ -44,6 +44,52 @@ def r16_1(ctx):
     final_return_checks(ctx)
     gm = idx.func("HexagonTransformerExtension.get_meta")
     ctx.check("attributes do not depend on the layout", "code_format" not in U(gm.node) and "transformer" not in U(gm.node), "get_meta reads only its own flags", "reads transformer state", fn_where(idx, gm))
+    # phase separation: the attribute flags are settled while the tree is transformed; the emission phase (whose work
+    # differs between the layouts: what is printed, how often, in which order) never touches them
+    flags = {n.attr for n in ast.walk(gm.node) if isinstance(n, ast.Attribute) and isinstance(n.value, ast.Name) and n.value.id == "self" and isinstance(n.ctx, ast.Load)}
+    ext_classes = [c for c in idx.mro("HexagonTransformerExtension") if c in idx.classes]
+    setters = set()
+    for c in ext_classes:
+        for m, mfi in idx.classes[c].methods.items():
+            if m in ("__init__", "reset_flags", "get_meta"):
+                continue
+            for n in ast.walk(mfi):
+                tg = n.targets if isinstance(n, ast.Assign) else [n.target] if isinstance(n, (ast.AugAssign, ast.AnnAssign)) else []
+                if any(isinstance(t, ast.Attribute) and U(t.value) == "self" and t.attr in flags for t in tg):
+                    setters.add(m)
+                if isinstance(n, ast.Call) and isinstance(n.func, ast.Attribute) and isinstance(n.func.value, ast.Attribute) and U(n.func.value.value) == "self" and n.func.value.attr in flags \
+                        and n.func.attr in ("append", "add", "extend", "update", "insert"):
+                    setters.add(m)
+    # callers of those setters inside the extension (set_token_meta_data) count as setters as well
+    changed = True
+    while changed:
+        changed = False
+        for c in ext_classes:
+            for m, mfi in idx.classes[c].methods.items():
+                if m in setters or m in ("__init__", "reset_flags", "get_meta"):
+                    continue
+                if any(isinstance(n, ast.Call) and isinstance(n.func, ast.Attribute) and U(n.func.value) == "self" and n.func.attr in setters for n in ast.walk(mfi)):
+                    setters.add(m)
+                    changed = True
+    ctx.need(len(setters) >= 5 and "set_token_meta_data" in setters, f"flag setters of the extension not recognised: {sorted(setters)}")
+    fb = idx.func("RZILTransformer.fbody")
+    emit_roots = [f for q, f in idx.funcs.items() if f.cls == "RZILTransformer" and f.name.startswith("emit_")]
+    ctx.need(len(emit_roots) >= 4, "emission functions (emit_*) not found")
+    closure = idx.reachable(emit_roots)
+    offenders = []
+    for q, f in closure.items():
+        if f.cls in ext_classes:
+            continue
+        for n in ast.walk(f.node):
+            if isinstance(n, ast.Call) and isinstance(n.func, ast.Attribute) and n.func.attr in setters and (f.cls != "RZILTransformer" or "ext" in U(n.func.value)):
+                offenders.append(f"{q}:{n.lineno} {U(n)[:50]}")
+    first_emit = min([n.lineno for n in ast.walk(fb.node) if isinstance(n, ast.Call) and isinstance(n.func, ast.Attribute) and n.func.attr.startswith("emit_")] or [10**9])
+    for n in ast.walk(fb.node):
+        if isinstance(n, ast.Call) and isinstance(n.func, ast.Attribute) and n.func.attr in setters and n.lineno > first_emit:
+            offenders.append(f"RZILTransformer.fbody:{n.lineno} {U(n)[:50]}")
+        if isinstance(n, (ast.For, ast.While)) and n.lineno < 10**9 and any(isinstance(c, ast.Call) and isinstance(c.func, ast.Attribute) and c.func.attr in setters for c in ast.walk(n)):
+            offenders.append(f"RZILTransformer.fbody:{n.lineno} flags set inside a loop over emitted operations")
+    ctx.check("attribute flags are never set from the emission phase", not offenders, f"no call of {sorted(setters)[:4]}... at or after the first emit_* call", "; ".join(sorted(set(offenders))[:3]) or "ok", fn_where(idx, fb))
 
 
 @rule("R16.2", "C16", "partition: the block layout prints read / exec (non-hybrid) / write (effects + hybrids); the statement layout prints every written effect after its dependencies; both start with the same READ block", min_instances=6)
@@ -148,8 +194,16 @@ def r16_4(ctx):
     ctx.check("dependencies sorted by num_id", len(sorts) == 1 and sorted_by_num_id(sorts[0]), "sorted(<effect>.get_exec_op_list(), key=lambda v: v.num_id)", str([U(x) for x in sorts]), fn_where(idx, fs))
     # the block layout prints in creation order because the operand dicts are insertion ordered and filled by add_op
     fa = idx.func("ILOpsHolder.add_pure")
-    stores = sorted({U(n.targets[0]) for n in ast.walk(fa.node) if isinstance(n, ast.Assign)})
-    ctx.check("operand lists are filled in creation order", stores == ["self.exec_ops[pure.get_name()]", "self.read_ops[pure.get_name()]"], "item stores keyed by name", str(stores), fn_where(idx, fa))
+    param = fa.node.args.args[1].arg
+    item_stores = [n for n in ast.walk(fa.node) if isinstance(n, ast.Assign) and isinstance(n.targets[0], ast.Subscript)]
+    conts = sorted({U(n.targets[0].value) for n in item_stores})
+    appended = all(isinstance(n.value, ast.Name) and n.value.id == param for n in item_stores)
+    reorder = [U(n)[:40] for n in ast.walk(fa.node) if isinstance(n, ast.Call) and call_tail(n) in ("move_to_end", "sorted", "sort", "insert", "reversed")]
+    ctx.check("operand lists are filled in creation order", conts == ["self.exec_ops", "self.read_ops"] and appended and not reorder, "plain item stores of the new node into the insertion-ordered dicts",
+              f"containers={conts} value-is-node={appended} reordering={reorder}", fn_where(idx, fa))
+    from .c12 import r12_8
+
+    r12_8(ctx)  # ... and indexed by the node's name (look-ups use the same key)
     fg = idx.func("ILOpsHolder.get_op_count")
     box = {}
     def once(i):
